@@ -272,8 +272,11 @@ def run(ctx):
                 continue
             break
         case = {"plant": [{"at": 0, "op": c}],
+                # (the last node is created with MORE output ports than its operation has; nothing is linked to the
+                # surplus ports, its order edge still sits right after the operation's value ports)
                 "hist": [["add_node", 0, 4, None], ["add_node", 0, 4, None], ["add_link", 1, 0, 2, 0],
-                         ["add_link", 3, 0, 1, 0], ["add_order_link", 1, 3], ["add_order_link", 2, 1]]}
+                         ["add_link", 3, 0, 1, 0], ["add_order_link", 1, 3], ["add_order_link", 2, 1],
+                         ["add_node", 0, 7, None], ["add_order_link", 4, 2], ["add_link", 4, 1, 3, 1]]}
         ctx.feat("feature:hand-typed-op-partially-connected")
         info = ctx.guard("typed-partial", case, check_hugr_case, ctx, case, "attr-rich", i % 4 == 0)
         ctx.case("typed-partial", case, True)
